@@ -95,11 +95,16 @@ def ps_check(kind, case, rec):
     else:
         R2, R3 = fem.RegionQuad, fem.RegionHexahedron
     r2, r3 = R2(m2), R3(m3)
-    f2 = fem.FieldContainer([fem.FieldPlaneStrain(r2, dim=2)])
     f3 = fem.FieldContainer([fem.Field(r3, dim=3)])
     X2, X3 = np.array(m2.points), np.array(m3.points)
     u2 = smooth_u(X2, case["seed"], case["amp"])
-    f2[0].values[...] = u2
+    if (case["seed"] + case["layers"]) % 2:
+        # the in-plane state arrives through the constructor argument `values` of the field
+        f2 = fem.FieldContainer([fem.FieldPlaneStrain(r2, dim=2, values=u2.copy())])
+        rec.label("state-through-the-values-argument")
+    else:
+        f2 = fem.FieldContainer([fem.FieldPlaneStrain(r2, dim=2)])
+        f2[0].values[...] = u2
     key = {tuple(np.round(p, 9)): i for i, p in enumerate(X2)}
     try:
         col = np.array([key[tuple(np.round(p[:2], 9))] for p in X3])
@@ -387,6 +392,18 @@ def cond_check(kind, case, rec):
         S = K2[:nu, :nu] - K2[:nu, nu:] @ np.linalg.solve(K2[nu:, nu:], K2[nu:, :nu])
         rec.close("condensed tangent = Schur complement of the three-field tangent", float(np.abs(K1 - S).max()) / float(np.abs(S).max()), 1e-6, {"bulk/mu": case["bulkratio"]})
         rec.close("p = K (J - 1)", float(np.abs(p2 - bulk * (J2 - 1)).max()) / max(float(np.abs(p2).max()), mu * 1e-3), 1e-7)
+    if not stateful:
+        # the used condensed body asked about a state that arrives in ANOTHER container object (a copy, x + dx in a hand-written
+        # loop): it answers like a body built from scratch on a container holding that state (both settled by repeated evaluation)
+        xo = res1.x.copy()
+        xo[0].values[...] = 0.9 * np.asarray(res1.x[0].values)
+        fF = fem.FieldContainer([fem.FieldAxisymmetric(region, dim=2) if axi else fem.FieldPlaneStrain(region, dim=2) if ps else fem.Field(region, dim=3)])
+        fF[0].values[...] = xo[0].values
+        sF = fem.SolidBodyNearlyIncompressible(um, fF, bulk=bulk)
+        for _ in range(4):
+            ra_ = np.asarray(s1.assemble.vector(xo).toarray()).ravel().copy()
+            rb_ = np.asarray(sF.assemble.vector(fF).toarray()).ravel().copy()
+        rec.close("used-condensed-body-on-another-container=fresh-body", float(np.abs(ra_ - rb_).max()) / max(float(np.abs(rb_).max()), 1e-12), 1e-8)
 
 
 # ---------------------------------------------------------------------------------------------------------------
